@@ -289,10 +289,7 @@ def to_pairs(g, rec):
 def run(rep, tier, build, replay=None):
     rng = random.Random(common.seed() * 7919 + 14)
     gs = gen(rng, tier)
-    per_db = 48
-    dbs = [gs[i:i + per_db] for i in range(0, len(gs), per_db)]
-    nsh = common.NPROC * 2
-    shards = [s for s in (dbs[i::nsh] for i in range(nsh)) if s]
+    shards = common.shard_dbs(gs, 48)
     outs = common.run_impl_parallel('run_graph.py', [{'dbs': s, 'want': ['sim']} for s in shards])
     byk = {rec['k']: rec for o in outs for rec in o}
     stats = {}
